@@ -215,7 +215,37 @@ reg("C18", "exploration",
     BASE_NOTE + "gcc 12 ASan/UBSan runtime; PYTHONMALLOC=malloc so that CPython's allocator does not hide frees.", "DESIGN.md 3/C18")
 
 
+# generator / oracle pieces added after the texts above were written (DESIGN.md 17)
+EXTRA = {
+    "C01": " Lattice additions: a prefix shared by three values, mapped alternatives next to unhashable-valued ones, a Map whose "
+           "dictionary is changed after the definition.",
+    "C02": " A write-once (ReadOnly) attribute: its one defining assignment is a change like any other.",
+    "C03": " Also a Map whose dictionary is changed after the definition (both validators must keep consulting the same mapping) "
+           "and adapting Instance alternatives whose default is an object.",
+    "C04": " update() with several iterables is one operation.",
+    "C08": " add_trait over a name that already exists on an observed path (equivalent redefinition) is one of the mutations.",
+    "C09": " One handler may be a closure over the observed root: the whole graph is then dropped and must be collected.",
+    "C10": " Default kinds include an explicit Tuple default that holds a list.",
+    "C11": " The delegate may be None for a while (link broken, every candidate changes, a delegate is installed again).",
+    "C12": " Items may have value-based equality (replacing an item by an equal but distinct object changes the property).",
+    "C13": " A trait_added listener may declare an instance trait for the name being resolved for the first time; declarations may be "
+           "made with add_class_trait after the family exists; a level may re-declare an inherited name by a plain value.",
+    "C14": " Deferring attributes (DelegatesTo / PrototypedFrom) over mutable values of the child, and an explicitly non-transient trait.",
+    "C15": " White space around the whole text (every character of the class, leading and trailing).",
+    "C17": " Offers may name protocol and factory by dotted strings into a module that is not imported yet.",
+    "C18": " The ctrait-api stage also defines Properties whose callbacks have every arity 0..6 and '*' delegates on classes with odd "
+           "__prefix__ values.",
+    "C19": " Operations include deletions of stored values; stage rehook makes a callback of a newly assigned intermediate object fail "
+           "while an extended on_trait_change listener re-hooks itself (absolute expectations after that object is replaced).",
+    "C20": " Every sync_trait call is made in one of four spellings; a one-shot handler may remove a live link in the middle of a "
+           "propagation.",
+}
+
+
 def main():
+    for pid, extra in EXTRA.items():
+        if pid in CHECKS and extra not in CHECKS[pid]["text"]:
+            CHECKS[pid]["text"] += extra
     props = [json.loads(l) for l in open(os.path.join(ROOT, "properties.jsonl"))]
     checks, na = [], []
     for p in props:
